@@ -463,6 +463,11 @@ func c19sCAMatrix(t *testing.T, res *verifResult, offered []c19Key) (cases, idx 
 		hit verifHit
 	}
 	refusals := map[string][]refusal{}
+	type loadFailure struct {
+		main, ed string
+		hit      verifHit
+	}
+	var notLoaded []loadFailure
 	asked := map[string]int{}
 	for _, cf := range configs {
 		mainFile, err := c19sKeyFile(caKeys[cf.main.alg], cf.main.format)
@@ -484,9 +489,12 @@ func c19sCAMatrix(t *testing.T, res *verifResult, offered []c19Key) (cases, idx 
 		cs := map[string]interface{}{"main_ca": name(cf.main), "ed25519_ca": edName, "sealed": cf.sealed}
 		res.bump(fmt.Sprintf("ca-config:%s+%s:loaded=%v", name(cf.main), edName, loadErr == nil))
 		if loadErr != nil {
-			if wellFormed {
-				res.hit(verifHit{Key: "C19:offered-refused:all:ca-" + name(cf.main) + "+" + edName, Oracle: "the daemon runs with every CA key file its loader takes, so that the offered key types are certified", Kind: "input",
-					What: fmt.Sprintf("the daemon does not start with %s: %v", desc, loadErr), Case: cs})
+			if wellFormed && !cf.sealed {
+				notLoaded = append(notLoaded, loadFailure{name(cf.main), edName, verifHit{Oracle: "the daemon runs with every CA key file its loader takes, so that the offered key types are certified", Kind: "input",
+					What: fmt.Sprintf("the daemon does not start with %s: %s", desc, strings.TrimSpace(loadErr.Error())), Case: cs}})
+			} else if wellFormed {
+				res.hit(verifHit{Key: "C19:offered-refused:all:sealed-ca-" + name(cf.main) + "+" + edName, Oracle: "the daemon runs with every CA key file its loader takes, so that the offered key types are certified", Kind: "input",
+					What: fmt.Sprintf("the daemon does not start with %s: %s", desc, strings.TrimSpace(loadErr.Error())), Case: cs})
 			}
 			res.eval("ca-config|"+desc+"|refused", true)
 			cases = append(cases, fmt.Sprintf(" (%d%%N, %d%%N, %s, false, [])", cf.main.alg, cf.main.format, edCoq))
@@ -549,6 +557,27 @@ func c19sCAMatrix(t *testing.T, res *verifResult, offered []c19Key) (cases, idx 
 		}
 		cases = append(cases, fmt.Sprintf(" (%d%%N, %d%%N, %s, true, [%s])", cf.main.alg, cf.main.format, edCoq, strings.Join(verdicts, "; ")))
 		idx = append(idx, fmt.Sprintf("%d\t%s -> %s", len(idx), desc, strings.Join(vdesc, " ")))
+	}
+	// a key file the daemon does not take: named by the file when every configuration with that file fails
+	perMain, perEd := map[string]int{}, map[string]int{}
+	for _, f := range notLoaded {
+		perMain[f.main]++
+		perEd[f.ed]++
+	}
+	reported := map[string]bool{}
+	for _, f := range notLoaded {
+		key := "C19:offered-refused:all:ca-" + f.main + "+" + f.ed
+		switch {
+		case perMain[f.main] == 3:
+			key = "C19:offered-refused:all:ca-" + f.main
+		case perEd[f.ed] == 12:
+			key = "C19:offered-refused:all:ca-" + f.ed
+		}
+		if !reported[key] {
+			reported[key] = true
+			f.hit.Key = key
+			res.hit(f.hit)
+		}
 	}
 	for _, tp := range []string{"rsa:ssh", "rsa:x509", "p256:ssh", "p256:x509", "p384:ssh", "p384:x509", "ed25519:ssh"} {
 		rs := refusals[tp]
